@@ -6,6 +6,7 @@ import (
 	"reflect"
 	"runtime"
 	"strconv"
+	"strings"
 	"sync"
 
 	"github.com/polydawn/refmt"
@@ -67,6 +68,11 @@ func opRace(p []string) string {
 		a := zas[1+r.intn(len(zas)-1)]
 		t := types[r.intn(len(types))]
 		vd := genValue(r, t, genOpts{depth: 1 + r.intn(3), jsonSafe: f == "json", roundtrip: true, tagged: a.id == 2 || a.id == 3, cbor: f == "cbor"})
+		if t == reflect.TypeOf(HasShape{}) || t == reflect.TypeOf([]Shape{}) {
+			for try := 0; try < 10 && !strings.Contains(vd, "I"); try++ {
+				vd = genValue(r, t, genOpts{depth: 2 + r.intn(2), jsonSafe: f == "json", roundtrip: true, tagged: a.id == 2 || a.id == 3, cbor: f == "cbor"})
+			}
+		}
 		rv, err := buildValue(t, vd)
 		if err != nil {
 			return "bad-op"
@@ -112,32 +118,44 @@ func opRace(p []string) string {
 	// concurrent: every worker runs every job (sharing atlases and inputs), in a worker-specific order; the atlases
 	// are freshly built for this phase, so that the workers are the first ever to use them (lazily initialised or
 	// first-use-mutated shared state would be touched concurrently)
-	fresh := map[int]*atlasCfg{}
-	for _, a := range freshAtlases() {
-		fresh[a.id] = a
-	}
-	got := make([][]string, workers)
-	var wg sync.WaitGroup
-	for w := 0; w < workers; w++ {
-		wg.Add(1)
-		go func(w int) {
-			defer wg.Done()
-			res := make([]string, len(jobs))
-			for k := range jobs {
-				i := (k*7 + w*13) % len(jobs)
-				res[i] = runJob(jobs[i], fresh[jobs[i].aid])
-				if k%16 == 0 {
-					runtime.Gosched()
+	// Two passes, each on its own freshly built atlas set.  Pass 0: all workers take the jobs in the SAME order behind a
+	// common start line, so the first use of every atlas entry happens in several goroutines at (nearly) the same time.
+	// (Unrelated mutexes inside reflect and the allocator order goroutines that are far apart in time, which would hide a
+	// race between a first-use write and a later read from the detector.)  Pass 1: worker-specific orders.
+	for pass := 0; pass < 2; pass++ {
+		fresh := map[int]*atlasCfg{}
+		for _, a := range freshAtlases() {
+			fresh[a.id] = a
+		}
+		got := make([][]string, workers)
+		var wg sync.WaitGroup
+		start := make(chan struct{})
+		for w := 0; w < workers; w++ {
+			wg.Add(1)
+			go func(w int) {
+				defer wg.Done()
+				res := make([]string, len(jobs))
+				<-start
+				for k := range jobs {
+					i := k
+					if pass == 1 {
+						i = (k*7 + w*13) % len(jobs)
+					}
+					res[i] = runJob(jobs[i], fresh[jobs[i].aid])
+					if pass == 1 && k%16 == 0 {
+						runtime.Gosched()
+					}
 				}
-			}
-			got[w] = res
-		}(w)
-	}
-	wg.Wait()
-	for w := range got {
-		for i := range jobs {
-			if got[w][i] != want[i] {
-				return fmt.Sprintf("I=differs O=viol:worker-%d-job-%d-%s-differs-from-sequential", w, i, jobs[i].kind)
+				got[w] = res
+			}(w)
+		}
+		close(start)
+		wg.Wait()
+		for w := range got {
+			for i := range jobs {
+				if got[w][i] != want[i] {
+					return fmt.Sprintf("I=differs O=viol:worker-%d-job-%d-%s-differs-from-sequential", w, i, jobs[i].kind)
+				}
 			}
 		}
 	}
